@@ -102,10 +102,29 @@ theorem addPod_eff (c : Ctl) (p : Pod) (ip : String) :
     obtain ⟨ks, hks, heff, _, _, _, _⟩ := takeWaiting_eff (cachePod c p.key ip) ip
     exact ⟨ks, hks, by simpa using h12.trans heff⟩
 
-/-- `PodCache.onEvent` when the labels did not change: only the pod cache and `needResync` move, and
-    for an add/update of a pod with an IP every slice registered under that IP is replayed. -/
+/-- the pod event does not reach `recomputeServiceForPod`: the labels are unchanged, or the pod is not
+    (going to be) ready, or the pod cache does not hold it under its IP yet -/
+def NoRecompute (c : Ctl) (old : Option Pod) (p : Pod) : Prop :=
+  labelsChanged old p = false ∨ (podShouldBeIn p && p.ready) = false ∨ setContains c.byIP p.ip p.key = false
+
+theorem NoRecompute.of_labels (c : Ctl) (old : Option Pod) (p : Pod) (hlab : ∀ o, old = some o → o.labels = p.labels) :
+    NoRecompute c old p := by
+  left
+  unfold labelsChanged
+  cases old with
+  | none => rfl
+  | some o => simp [hlab o rfl]
+
+/-- a pod the cache does not hold under `ip` is added the same way whatever the label flag -/
+theorem addPod_flag (c : Ctl) (p : Pod) (ip : String) (b : Bool) (h : setContains c.byIP ip p.key = false) :
+    addPod c p ip b = addPod c p ip false := by
+  unfold addPod
+  simp [h]
+
+/-- `PodCache.onEvent` when `recomputeServiceForPod` is not reached: only the pod cache and `needResync`
+    move, and for an add/update of a pod with an IP every slice registered under that IP is replayed. -/
 theorem podEvent_eff (c : Ctl) (old : Option Pod) (p : Pod) (k : PodEvKind)
-    (hlab : ∀ o, old = some o → o.labels = p.labels) :
+    (hnr : NoRecompute c old p) :
     ∃ ks, (podEvent c old p k).2 = ks.map Ev.replay ∧ PodEff c (podEvent c old p k).1 ks ∧
       (k ≠ .del → p.ip ≠ "" → ∀ k', setContains c.resync p.ip k' = true → k' ∈ ks) ∧
       (k ≠ .del → p.ip ≠ "" → ∀ k', setContains (podEvent c old p k).1.resync p.ip k' = false) := by
@@ -149,7 +168,7 @@ theorem podEvent_eff (c : Ctl) (old : Option Pod) (p : Pod) (k : PodEvKind)
         rw [← hipeq hne]
         exact herased k'
     | upd =>
-      obtain ⟨ks, hks, heff, _, _, hall, herased⟩ := takeWaiting_eff c ip
+      obtain ⟨ks, hks, heff, hby, _, hall, herased⟩ := takeWaiting_eff c ip
       have hall' : p.ip ≠ "" → ∀ k', setContains c.resync p.ip k' = true → k' ∈ ks := by
         intro hne k' hk'
         rw [← hipeq hne] at hk'
@@ -166,11 +185,20 @@ theorem podEvent_eff (c : Ctl) (old : Option Pod) (p : Pod) (k : PodEvKind)
           have := hd.sub ip k' hc
           rw [herased k'] at this
           cases this
-      · have hbf : labelsChanged old p = false := by
-          unfold labelsChanged
-          cases old with
-          | none => rfl
-          | some o => simp [hlab o rfl]
+      · rename_i hok
+        have hbf : addPod (takeWaiting c ip).1 p ip (labelsChanged old p) = addPod (takeWaiting c ip).1 p ip false := by
+          cases hnr with
+          | inl h => rw [h]
+          | inr h =>
+            cases h with
+            | inl h => rw [h] at hok; simp at hok
+            | inr h =>
+              apply addPod_flag
+              have hpip : p.ip ≠ "" := by
+                intro hz
+                simp [podShouldBeIn, hz] at hok
+              rw [hby, hipeq hpip]
+              exact h
         rw [hbf]
         obtain ⟨ks2, hks2, heff2⟩ := addPod_eff (takeWaiting c ip).1 p ip
         refine ⟨ks ++ ks2, by simp [hks, hks2], heff.trans heff2, ?_, ?_⟩
@@ -260,23 +288,35 @@ theorem parkedAddrs_mono (pods pods' : List Pod) (sl : Slice) (a : String)
 
 /-! ### Pod writes -/
 
+/-- no endpoint of any slice refers to the pod -/
+def Unreferenced (c : Ctl) (ns name : String) : Prop :=
+  ∀ sl ∈ c.slices, ∀ ea ∈ sl.addrPairs, ea.1.target ≠ some (ns, name)
+
+/-- the slice has an endpoint that refers to the pod -/
+def Refs (sl : Slice) (ns name : String) : Prop :=
+  ∃ ea ∈ sl.addrPairs, ea.1.target = some (ns, name)
+
 /-- the condition under which a Pod add/update is repaired by the controller:
     * a new pod: every endpoint that refers to it carries the pod's IP (then the slice is waiting in
       `needResync` under that IP and is replayed) - finding `waiting-address-differs-from-pod-ip` otherwise;
-    * an update: labels, service account and node are unchanged (phase, readiness, IP assignment,
-      deletion timestamp are free) - finding `labels-built-before-pod-label-change` otherwise. -/
+    * an update: `recomputeServiceForPod` is not reached (its early exit is finding
+      `health-built-before-service-known`), and either labels, service account and node are unchanged
+      (phase, readiness, IP assignment, deletion timestamp are free) or no endpoint refers to the pod yet
+      (a pending pod that is bound to a node, relabelled, ... before the slice controller publishes it) -
+      findings `labels-built-before-pod-label-change`, `locality-built-before-node-change`,
+      `identity-of-replaced-pod` otherwise. -/
 def PodGood (c : Ctl) (v : Pod) : Prop :=
   match findPod c.pods v.ns v.name with
   | none => ∀ sl ∈ c.slices, ∀ ea ∈ sl.addrPairs, ea.1.target = some (v.ns, v.name) → ea.2 = v.ip ∧ v.ip ≠ ""
-  | some o => podSig o = podSig v
+  | some o => NoRecompute c (some o) v ∧ (podSig o = podSig v ∨ Unreferenced c v.ns v.name)
 
 /-- Endpoint before pod, pod status changes, IP assignment: after a Pod add/update handled with the
     queue drained (the event, then the replays it queued) the invariant holds again. -/
 theorem pod_write_inv (c : Ctl) (v : Pod) (c' : Ctl) (hph : v.phase ≠ "F") (hstep : stepC c (.pod v) = some c')
-    (hinv : Inv c)
+    {P : Slice → Prop} {Q : Svc → Prop} (hinv : InvExcept c P Q)
     (hwf : WF { c with pods := upsertBy (fun x => x.ns = v.ns ∧ x.name = v.name) v c.pods })
     (hnc : NoCachedAddr c) (hnc' : NoCachedAddr c')
-    (hgood : PodGood c v) : Inv c' := by
+    (hgood : PodGood c v) : InvExcept c' P Q := by
   rw [stepC_pod c v hph] at hstep
   simp only [Option.some.injEq] at hstep
   subst hstep
@@ -311,20 +351,21 @@ theorem pod_write_inv (c : Ctl) (v : Pod) (c' : Ctl) (hph : v.phase ≠ "F") (hs
       refine ⟨some o, .upd, ?_, by simp, by simp, by simp⟩
       simp [runEvents, handle, hfind]
   obtain ⟨old, kind, hrun, hkind, hold, holdn⟩ := hev
-  have hlab : ∀ o, old = some o → o.labels = v.labels := by
-    intro o ho
-    have hfo := hold o ho
-    unfold PodGood at hgood
-    rw [hfo] at hgood
-    simp only [podSig, Prod.mk.injEq] at hgood
-    exact hgood.2.2.1
-  obtain ⟨ks, hR, heff, htake, _⟩ := podEvent_eff c1 old v kind hlab
+  have hnr : NoRecompute c1 old v := by
+    cases old with
+    | none => exact Or.inl rfl
+    | some o =>
+      have hfo := hold o rfl
+      unfold PodGood at hgood
+      rw [hfo] at hgood
+      exact hgood.1
+  obtain ⟨ks, hR, heff, htake, _⟩ := podEvent_eff c1 old v kind hnr
   have hrunAll : runAll c1 [podEvOf c v] = (runEvents (podEvent c1 old v kind).1 (ks.map Ev.replay)).1 := by
     show (runEvents (runEvents c1 _).1 (runEvents c1 _).2).1 = _
     rw [hrun]
     simp only [List.append_nil]
     rw [hR]
-  show Inv (runAll c1 _)
+  show InvExcept (runAll c1 _) P Q
   rw [hrunAll]
   have hnc'' : NoCachedAddr (runEvents (podEvent c1 old v kind).1 (ks.map Ev.replay)).1 := by
     rw [← hrunAll]; exact hnc'
@@ -334,17 +375,17 @@ theorem pod_write_inv (c : Ctl) (v : Pod) (c' : Ctl) (hph : v.phase ≠ "F") (hs
   have hby : c2.byIP = (runEvents c2 (ks.map Ev.replay)).1.byIP := (replays_stores ks c2).2.1.symm
   have hsl : (runEvents c2 (ks.map Ev.replay)).1.slices = c.slices := by
     rw [(replays_stores ks c2).1, heff.slices]
-  have hnc2 : ∀ sl ∈ c.slices, ∀ ea ∈ sl.addrPairs, ea.1.target = none → alookup ea.2 c2.byIP = none := by
+  have hnc2 : ∀ sl ∈ c.slices, ∀ ea ∈ sl.addrPairs, ea.1.target = none → ∀ k, setContains c2.byIP ea.2 k = false := by
     intro sl hsl' ea hea htg
     rw [hby]
     apply hnc'' sl _ ea hea htg
     rw [hsl]
     exact hsl'
-  have hexc : InvExcept c2 (fun x => x.key ∈ ks) := by
+  have hexc : InvExcept c2 (fun x => P x ∨ x.key ∈ ks) Q := by
     refine ⟨?_, ?_, ?_, ?_, ?_, ?_, by rw [heff.cache]; exact hinv.nodup⟩
     · intro x hx hs hnk
       rw [heff.slices] at hx
-      have hfresh := hinv.fresh x hx hs (fun hf => hf)
+      have hfresh := hinv.fresh x hx hs (fun hp => hnk (Or.inl hp))
       unfold EntryOK at hfresh ⊢
       rw [heff.cache, heff.pods, heff.nodes, heff.smap, hfresh]
       apply buildSlice_congr
@@ -368,20 +409,25 @@ theorem pod_write_inv (c : Ctl) (v : Pod) (c' : Ctl) (hph : v.phase ≠ "F") (hs
               refine ⟨ea, hea, ?_⟩
               rw [htg, hsame.1, hsame.2]
               simp [hfo]
-            have hreg := hinv.parked x hx (fun hf => hf) ea.2 hpark
+            have hreg := hinv.parked x hx (fun hp => hnk (Or.inl hp)) ea.2 hpark
             rw [hg.1] at hreg
-            exact hnk (htake hkind hg.2 x.key hreg)
+            exact hnk (Or.inr (htake hkind hg.2 x.key hreg))
           | some o =>
             unfold PodGood at hgood
             rw [hfo] at hgood
-            simp only [podView, Option.map, Option.some.injEq, Prod.mk.injEq]
-            refine ⟨hgood, ?_⟩
-            apply localityOf_congr
-            simp only [podSig, Prod.mk.injEq] at hgood
-            exact hgood.2.2.2.2
+            cases hgood.2 with
+            | inl hsig =>
+              simp only [podView, Option.map, Option.some.injEq, Prod.mk.injEq]
+              refine ⟨hsig, ?_⟩
+              apply localityOf_congr
+              simp only [podSig, Prod.mk.injEq] at hsig
+              exact hsig.2.2.2.2
+            | inr hun =>
+              exfalso
+              exact hun x hx ea hea (by rw [htg, hsame.1, hsame.2])
         · rw [hother tns tn hsame]
       · intro ea hea htg
-        rw [podByIP_none _ _ _ _ (hnc x hx ea hea htg), podByIP_none _ _ _ _ (hnc2 x hx ea hea htg)]
+        rw [podByIP_empty _ _ _ _ (hnc x hx ea hea htg), podByIP_empty _ _ _ _ (hnc2 x hx ea hea htg)]
     · intro h n eps he
       rw [heff.cache] at he
       rw [heff.slices]
@@ -395,37 +441,31 @@ theorem pod_write_inv (c : Ctl) (v : Pod) (c' : Ctl) (hph : v.phase ≠ "F") (hs
         by_cases hsame : tns = v.ns ∧ tn = v.name
         · rw [hsame.1, hsame.2, hfind] at hnone; cases hnone
         · rw [hother tns tn hsame] at hnone; exact hnone
-      cases heff.resync a x.key (hinv.parked x hx (fun hf => hf) a ha') with
+      cases heff.resync a x.key (hinv.parked x hx (fun hp => hnk (Or.inl hp)) a ha') with
       | inl h => exact h
-      | inr h => exact absurd h hnk
-    · intro sv hsv
+      | inr h => exact absurd (Or.inr h) hnk
+    · intro sv hsv hq
       rw [heff.svcs] at hsv
       rw [heff.smap]
-      exact hinv.smapSome sv hsv
+      exact hinv.smapSome sv hsv hq
     · intro h sv hl
       rw [heff.smap] at hl
       rw [heff.svcs]
       exact hinv.smapOnly h sv hl
     · intro h
       exact idxOK_unchanged c c2 h (by rw [heff.index]) (by rw [heff.cache]) (by rw [heff.smap]) (hinv.index h)
-  exact (replays_inv ks c2 hexc hwf2).1
+  exact (replays_inv ks c2 P hexc hwf2).1
 
-/-- deleting a pod no endpoint refers to (the endpoint slice controller removes the endpoint first,
-    or the slice event is seen first) - finding `endpoint-of-deleted-pod-kept` otherwise -/
-def PodDelGood (c : Ctl) (ns name : String) : Prop :=
-  ∀ sl ∈ c.slices, ∀ ea ∈ sl.addrPairs, ea.1.target ≠ some (ns, name)
-
-theorem pod_delete_inv (c : Ctl) (ns name : String) (c' : Ctl) (hstep : stepC c (.delPod ns name) = some c')
-    (hinv : Inv c) (hwf : WF c) (hnc : NoCachedAddr c) (hnc' : NoCachedAddr c')
-    (hgood : PodDelGood c ns name) : Inv c' := by
-  simp only [stepC] at hstep
-  cases hfo : findPod c.pods ns name with
-  | none => rw [hfo] at hstep; cases hstep
-  | some o =>
-    rw [hfo] at hstep
-    simp only [Option.map, Option.some.injEq] at hstep
-    subst hstep
-    let c1 : Ctl := { c with pods := c.pods.filter (fun x => !(x.ns = ns ∧ x.name = name)) }
+/-- A pod leaves the store (deleted, or hidden by the informer's field selector when it is evicted:
+    then the event object `evp` is the new object, not the stored one).  Slices that still refer to the
+    pod keep the endpoint they built from it - they are exempt afterwards (the slice controller's next
+    write of the slice repairs them: `slice_write_inv`). -/
+theorem pod_removed_inv (c : Ctl) (ns name : String) (evp : Pod)
+    {P : Slice → Prop} {Q : Svc → Prop} (hinv : InvExcept c P Q) (hwf : WF c) (hnc : NoCachedAddr c)
+    (hnc' : NoCachedAddr (runAll { c with pods := c.pods.filter (fun x => !(x.ns = ns ∧ x.name = name)) } [.podDel evp])) :
+    InvExcept (runAll { c with pods := c.pods.filter (fun x => !(x.ns = ns ∧ x.name = name)) } [.podDel evp])
+      (fun x => P x ∨ Refs x ns name) Q := by
+  · let c1 : Ctl := { c with pods := c.pods.filter (fun x => !(x.ns = ns ∧ x.name = name)) }
     have hwf1 : WF c1 := by
       refine ⟨hwf.sliceEntryInj, hwf.sliceKeyInj, hwf.sliceNameInj, hwf.svcHostInj, hwf.svcNameInj, hwf.sliceSvc, ?_⟩
       intro a ha b hb
@@ -440,42 +480,41 @@ theorem pod_delete_inv (c : Ctl) (ns name : String) (c' : Ctl) (hstep : stepC c 
       by_cases h1 : x.ns = tns
       · right; intro h2; exact hne ⟨h1.symm.trans hx.1, h2.symm.trans hx.2⟩
       · left; exact h1
-    obtain ⟨ks, hR, heff, _, _⟩ := podEvent_eff c1 none o .del (by intro _ h; cases h)
-    have hrunAll : runAll c1 [Ev.podDel o] = (runEvents (podEvent c1 none o .del).1 (ks.map Ev.replay)).1 := by
+    obtain ⟨ks, hR, heff, _, _⟩ := podEvent_eff c1 none evp .del (Or.inl rfl)
+    have hrunAll : runAll c1 [Ev.podDel evp] = (runEvents (podEvent c1 none evp .del).1 (ks.map Ev.replay)).1 := by
       show (runEvents (runEvents c1 _).1 (runEvents c1 _).2).1 = _
       simp only [runEvents, handle, List.append_nil]
       rw [hR]
-    show Inv (runAll c1 _)
+    show InvExcept (runAll c1 _) (fun x => P x ∨ Refs x ns name) Q
     rw [hrunAll]
-    have hnc'' : NoCachedAddr (runEvents (podEvent c1 none o .del).1 (ks.map Ev.replay)).1 := by
+    have hnc'' : NoCachedAddr (runEvents (podEvent c1 none evp .del).1 (ks.map Ev.replay)).1 := by
       rw [← hrunAll]; exact hnc'
-    generalize hc2 : (podEvent c1 none o .del).1 = c2 at *
+    generalize hc2 : (podEvent c1 none evp .del).1 = c2 at *
     have hwf2 : WF c2 := hwf1.of_stores heff.slices heff.svcs heff.pods
     have hby : c2.byIP = (runEvents c2 (ks.map Ev.replay)).1.byIP := (replays_stores ks c2).2.1.symm
     have hsl : (runEvents c2 (ks.map Ev.replay)).1.slices = c.slices := by
       rw [(replays_stores ks c2).1, heff.slices]
-    have hnc2 : ∀ sl ∈ c.slices, ∀ ea ∈ sl.addrPairs, ea.1.target = none → alookup ea.2 c2.byIP = none := by
+    have hnc2 : ∀ sl ∈ c.slices, ∀ ea ∈ sl.addrPairs, ea.1.target = none → ∀ k, setContains c2.byIP ea.2 k = false := by
       intro sl hsl' ea hea htg
       rw [hby]
       apply hnc'' sl _ ea hea htg
       rw [hsl]
       exact hsl'
-    have hexc : InvExcept c2 (fun x => x.key ∈ ks) := by
+    have hexc : InvExcept c2 (fun x => (P x ∨ Refs x ns name) ∨ x.key ∈ ks) Q := by
       refine ⟨?_, ?_, ?_, ?_, ?_, ?_, by rw [heff.cache]; exact hinv.nodup⟩
       · intro x hx hs hnk
         rw [heff.slices] at hx
-        have hfresh := hinv.fresh x hx hs (fun hf => hf)
+        have hfresh := hinv.fresh x hx hs (fun hp => hnk (Or.inl (Or.inl hp)))
         unfold EntryOK at hfresh ⊢
         rw [heff.cache, heff.pods, heff.nodes, heff.smap, hfresh]
         apply buildSlice_congr
         · intro ea hea tns tn htg
           have hsame : ¬ (tns = ns ∧ tn = name) := by
             intro h
-            apply hgood x hx ea hea
-            rw [htg, h.1, h.2]
+            exact hnk (Or.inl (Or.inr ⟨ea, hea, by rw [htg, h.1, h.2]⟩))
           rw [hother tns tn hsame]
         · intro ea hea htg
-          rw [podByIP_none _ _ _ _ (hnc x hx ea hea htg), podByIP_none _ _ _ _ (hnc2 x hx ea hea htg)]
+          rw [podByIP_empty _ _ _ _ (hnc x hx ea hea htg), podByIP_empty _ _ _ _ (hnc2 x hx ea hea htg)]
       · intro h n eps he
         rw [heff.cache] at he
         rw [heff.slices]
@@ -489,34 +528,61 @@ theorem pod_delete_inv (c : Ctl) (ns name : String) (c' : Ctl) (hstep : stepC c 
           · intro ea hea tns tn htg
             have hsame : ¬ (tns = ns ∧ tn = name) := by
               intro h
-              apply hgood x hx ea hea
-              rw [htg, h.1, h.2]
+              exact hnk (Or.inl (Or.inr ⟨ea, hea, by rw [htg, h.1, h.2]⟩))
             rw [hother tns tn hsame]
-        cases heff.resync a x.key (hinv.parked x hx (fun hf => hf) a ha') with
+        cases heff.resync a x.key (hinv.parked x hx (fun hp => hnk (Or.inl (Or.inl hp))) a ha') with
         | inl h => exact h
-        | inr h => exact absurd h hnk
-      · intro sv hsv
+        | inr h => exact absurd (Or.inr h) hnk
+      · intro sv hsv hq
         rw [heff.svcs] at hsv
         rw [heff.smap]
-        exact hinv.smapSome sv hsv
+        exact hinv.smapSome sv hsv hq
       · intro h sv hl
         rw [heff.smap] at hl
         rw [heff.svcs]
         exact hinv.smapOnly h sv hl
       · intro h
         exact idxOK_unchanged c c2 h (by rw [heff.index]) (by rw [heff.cache]) (by rw [heff.smap]) (hinv.index h)
-    exact (replays_inv ks c2 hexc hwf2).1
+    exact (replays_inv ks c2 (fun x => P x ∨ Refs x ns name) hexc hwf2).1
+
+/-- Pod deleted: the slices that still refer to it become exempt. -/
+theorem pod_delete_inv (c : Ctl) (ns name : String) (c' : Ctl) (hstep : stepC c (.delPod ns name) = some c')
+    {P : Slice → Prop} {Q : Svc → Prop} (hinv : InvExcept c P Q) (hwf : WF c) (hnc : NoCachedAddr c)
+    (hnc' : NoCachedAddr c') : InvExcept c' (fun x => P x ∨ Refs x ns name) Q := by
+  simp only [stepC] at hstep
+  cases hfo : findPod c.pods ns name with
+  | none => rw [hfo] at hstep; cases hstep
+  | some o =>
+    rw [hfo] at hstep
+    simp only [Option.map, Option.some.injEq] at hstep
+    subst hstep
+    exact pod_removed_inv c ns name o hinv hwf hnc hnc'
+
+/-- Pod evicted (phase Failed): the informer's field selector turns the write into a DELETE that carries
+    the new object. -/
+theorem pod_evict_inv (c : Ctl) (v : Pod) (c' : Ctl) (hph : v.phase = "F") (hstep : stepC c (.pod v) = some c')
+    {P : Slice → Prop} {Q : Svc → Prop} (hinv : InvExcept c P Q) (hwf : WF c) (hnc : NoCachedAddr c)
+    (hnc' : NoCachedAddr c') : InvExcept c' (fun x => P x ∨ Refs x v.ns v.name) Q := by
+  simp only [stepC, hph, if_true] at hstep
+  cases hfo : findPod c.pods v.ns v.name with
+  | none => rw [hfo] at hstep; cases hstep
+  | some o =>
+    rw [hfo] at hstep
+    simp only [Option.map, Option.some.injEq] at hstep
+    subst hstep
+    exact pod_removed_inv c v.ns v.name v hinv hwf hnc hnc'
 
 /-! ### Node writes -/
 
 /-- A change of the node store is harmless when it leaves the locality of every pod as it was (the
     controller does not refresh endpoints on Node events - finding `locality-built-before-node-change`). -/
-theorem nodes_change_inv (c : Ctl) (nodes' : List Node) (hinv : Inv c) (hnc : NoCachedAddr c)
+theorem nodes_change_inv (c : Ctl) (nodes' : List Node) {P : Slice → Prop} {Q : Svc → Prop}
+    (hinv : InvExcept c P Q) (hnc : NoCachedAddr c)
     (hgood : ∀ p ∈ c.pods, localityOf nodes' p = localityOf c.nodes p) :
-    Inv { c with nodes := nodes' } := by
-  refine ⟨?_, hinv.noForeign, fun x hx _ => hinv.parked x hx (fun hf => hf), hinv.smapSome, hinv.smapOnly, ?_, hinv.nodup⟩
-  · intro x hx hs _
-    have hfresh := hinv.fresh x hx hs (fun hf => hf)
+    InvExcept { c with nodes := nodes' } P Q := by
+  refine ⟨?_, hinv.noForeign, hinv.parked, hinv.smapSome, hinv.smapOnly, ?_, hinv.nodup⟩
+  · intro x hx hs hnp
+    have hfresh := hinv.fresh x hx hs hnp
     unfold EntryOK at hfresh ⊢
     show cacheEntry c.cache x.host x.name = buildSlice c.pods nodes' c.byIP (alookup x.host c.smap) x
     rw [hfresh]
@@ -529,7 +595,7 @@ theorem nodes_change_inv (c : Ctl) (nodes' : List Node) (hinv : Inv c) (hnc : No
         simp only [podView, Option.map, Option.some.injEq, Prod.mk.injEq, true_and]
         exact (hgood p hp).symm
     · intro ea hea htg
-      rw [podByIP_none _ _ _ _ (hnc x hx ea hea htg)]
+      rw [podByIP_empty _ _ _ _ (hnc x hx ea hea htg)]
       rfl
   · intro h
     exact idxOK_unchanged c _ h rfl rfl rfl (hinv.index h)
